@@ -390,4 +390,45 @@ def r17_text_specs(ctx):
         ctx.functions.add(q)
 
 
-RULES = [('R17-text-specs', r17_text_specs), ('R17-scoping', r17_scoping), ('R17-nested', r17_nested), ('R17.2', r17_2), ('R17.4', r17_4)]
+def r17_faults(ctx):
+    """Fault injection inside the context manager: every library call meta_charset itself makes (there is none today) is made
+    to raise in turn; the override must not survive the failed `with` statement.  Catches work placed between the assignment
+    of the global and the try/finally that restores it."""
+    ai = make_interp(ctx)
+    mc = ctx.fn(ctx.p.func(META, 'meta_charset'))
+    src = ("def probe():\n"
+           "    with meta_charset('utf-16'):\n"
+           "        pass\n"
+           "    return _charset\n")
+    tree = ast.parse(src)
+    from ..model import FuncInfo as FI, add_parents
+    add_parents(tree)
+    probe = FI('probe', ctx.p.module(META), tree.body[0])
+
+    def run(k):
+        def thunk():
+            ai.global_store.pop(KEY, None)
+            ai.ext_calls = 0
+            ai.ext_call_names = []
+            ai.inject_fault_at = k
+            try:
+                return ai.call_function(probe, [], {})
+            finally:
+                ai.inject_fault_at = None
+        outs = ai.explore(thunk)
+        return outs, list(getattr(ai, 'ext_call_names', [])), ai.global_store.get(KEY, 'latin1')
+    outs, names, after = run(None)
+    ok = len(outs) == 1 and outs[0].kind == 'return' and outs[0].value == 'latin1'
+    ctx.require(ok, 'R17.1', 'with meta_charset(X): pass', ctx.where(mc), f'{outs}; charset afterwards must be latin1',
+                construct=f'{mc.qname}::plain')
+    ctx.extra['library_calls_inside_meta_charset'] = names
+    for k in range(1, len(names) + 1):
+        outs, _, after = run(k)
+        raised = bool(outs) and all(o.kind == 'raise' for o in outs)
+        ctx.require(raised and after == 'latin1', 'R17.1', f'fault in call #{k} ({names[k - 1]}) inside meta_charset', ctx.where(mc),
+                    f'when {names[k - 1]}() raises inside meta_charset the outcome is {outs} and the charset in force afterwards is {after!r} '
+                    '(the override leaks out of the failed call)', construct=f'{mc.qname}::fault::{names[k - 1]}')
+    ai.global_store.pop(KEY, None)
+
+
+RULES = [('R17-faults', r17_faults), ('R17-text-specs', r17_text_specs), ('R17-scoping', r17_scoping), ('R17-nested', r17_nested), ('R17.2', r17_2), ('R17.4', r17_4)]
